@@ -75,13 +75,21 @@ type chainT struct {
 	mod  []uint64
 }
 
+// ringOf returns the (read-only, cached) ring of degree N over mod. Samplers never write to the ring.
 func ringOf(mod []uint64) *ring.Ring {
+	k := fmt.Sprint(mod)
+	if r, ok := ringCache[k]; ok {
+		return r
+	}
 	r, err := ring.NewRing(N, mod)
 	if err != nil {
 		panic("c17: NewRing: " + err.Error())
 	}
+	ringCache[k] = r
 	return r
 }
+
+var ringCache = map[string]*ring.Ring{}
 
 func tinyChain() chainT { return chainT{"tiny", ref.SmallestPrimes(2*N, 3)} } // 97 193 257
 func mixedChain() chainT {
